@@ -17,10 +17,15 @@ using namespace rxh;
 #define RX_PROFILE "full"
 #endif
 static const bool heavy = RANDOMX_PROGRAM_ITERATIONS > 64;
+#ifdef RX_LARGEPAGES
+static const int LP = RANDOMX_FLAG_LARGE_PAGES;   // large-page allocator variants: the harness answers MAP_HUGETLB requests (page mappings bracketed by PROT_NONE)
+#else
+static const int LP = 0;
+#endif
 
 struct Env {
 	randomx_cache* cache = nullptr; randomx_dataset* ds = nullptr;
-	void build() { env::Track t; env::S().efence = true; cache = randomx_alloc_cache(RANDOMX_FLAG_JIT); randomx_init_cache(cache, "test key 000", 12); ds = randomx_alloc_dataset(RANDOMX_FLAG_DEFAULT); }
+	void build() { env::Track t; env::S().efence = true; env::S().hugepages = LP != 0; cache = randomx_alloc_cache((randomx_flags)(RANDOMX_FLAG_JIT | LP)); randomx_init_cache(cache, "test key 000", 12); ds = randomx_alloc_dataset((randomx_flags)LP); if (!cache || !ds) { fprintf(stderr, "c06: allocation failed\n"); exit(2); } }
 };
 static Env g_env;
 
@@ -29,7 +34,7 @@ struct Cfg { bool jit, full, hard, v2; std::string name() const { return std::st
 struct Runner {
 	Cfg c; std::unique_ptr<Engine> E; randomx::JitCompilerX86* jc = nullptr; std::vector<uint8_t> snap; int32_t prev_end = 0; size_t ssh_off = 0, code_size = 0; size_t epi_off = 0;
 	explicit Runner(const Cfg& cfg) : c(cfg) {
-		{ env::Track t; E = make_engine(c.flags(), g_env.cache, g_env.ds); }
+		{ env::Track t; E = make_engine(c.flags() | LP, g_env.cache, g_env.ds); }
 		if (!E) { fprintf(stderr, "c06: engine %s\n", c.name().c_str()); exit(2); }
 		E->set_v2(c.v2);
 		if (c.jit) {
@@ -58,8 +63,8 @@ struct Runner {
 	}
 };
 
-static vf::Json case_json(const Cfg& c, const char* fam, uint64_t idx, int image, unsigned fprc, const ProgBuf& p) {
-	return vf::Json::obj().set("kind", "program").set("profile", RX_PROFILE).set("cfg", c.name()).set("jit", c.jit).set("full", c.full).set("hard", c.hard).set("v2", c.v2).set("family", fam).set("index", (unsigned long long)idx).set("sp_image", image).set("fprc", (int)fprc).set("program", vf::hex(p.b, ProgBytes)).set("finding_key", std::string("c06:crash:") + c.name());
+static vf::Json case_json(const Cfg& c, const char* fam, uint64_t idx, int image, unsigned fprc, const ProgBuf& p, uint64_t unit_begin = ~0ull) {
+	return vf::Json::obj().set("unit_begin", (unsigned long long)(unit_begin == ~0ull ? idx : unit_begin)).set("kind", "program").set("profile", RX_PROFILE).set("cfg", c.name()).set("jit", c.jit).set("full", c.full).set("hard", c.hard).set("v2", c.v2).set("family", fam).set("index", (unsigned long long)idx).set("sp_image", image).set("fprc", (int)fprc).set("program", vf::hex(p.b, ProgBytes)).set("finding_key", std::string("c06:crash:") + c.name());
 }
 
 // API clause: input ends / begins at a guard page, 32-byte output ends at a guard page
@@ -86,7 +91,15 @@ int main(int argc, char** argv) {
 
 	if (!args.replay.empty()) {
 		vf::Json r = vf::Json::load(args.replay); vf::Result R; std::string d;
-		if (r.at("kind").s == "program") { Cfg c{ r.at("jit").b, r.at("full").b, r.at("hard").b, r.at("v2").b }; Runner rn(c); ProgBuf p; auto b = vf::unhex(r.at("program").s); memcpy(p.b, b.data(), std::min(b.size(), ProgBytes)); fill_scratchpad(rn.E->scratchpad(), (int)r.at("sp_image").num()); d = rn.run(p, (unsigned)r.at("fprc").num(), R); }
+		if (r.at("kind").s == "program") {
+			Cfg c{ r.at("jit").b, r.at("full").b, r.at("hard").b, r.at("v2").b }; ProgBuf p; auto b = vf::unhex(r.at("program").s); memcpy(p.b, b.data(), std::min(b.size(), ProgBytes));
+			{ Runner rn(c); fill_scratchpad(rn.E->scratchpad(), (int)r.at("sp_image").num()); d = rn.run(p, (unsigned)r.at("fprc").num(), R); }
+			const Family* f = nullptr; for (auto& x : fam) if (x.name == r.at("family").s) f = &x;
+			if (d.empty() && f && (uint64_t)r.at("unit_begin").num() < (uint64_t)r.at("index").num()) {   // the registers (and so the addresses) depend on the scratchpad left by the unit's earlier programs: re-run them in order
+				Runner rn(c); fill_scratchpad(rn.E->scratchpad(), (int)r.at("sp_image").num()); ProgBuf q;
+				for (uint64_t idx = (uint64_t)r.at("unit_begin").num(); idx <= (uint64_t)r.at("index").num(); ++idx) { f->make(idx, c.v2, q); if (idx % 3 == 0) { static const int ext[4] = { 2, 7, 8, 9 }; set_config_block(q, ext[idx % 4]); } d = rn.run(q, (unsigned)(idx % 4), R); if (idx < (uint64_t)r.at("index").num()) d.clear(); }
+			}
+		}
 		else if (r.at("kind").s == "api") { env::Track t; randomx_vm* vm = randomx_create_vm((randomx_flags)r.at("flags").num(), g_env.cache, nullptr); d = api_case(vm, (size_t)r.at("len").num(), r.at("at_end").b); }
 		else d = "size budget: rerun the check";
 		printf("replay: %s\n", d.empty() ? "inside all buffers" : d.c_str()); return d.empty() ? 0 : 1;
@@ -142,12 +155,12 @@ int main(int argc, char** argv) {
 			if (!rn[un.cfg]) rn[un.cfg].reset(new Runner(c));
 			Runner& r = *rn[un.cfg]; int image = (int)(u % 3); fill_scratchpad(r.E->scratchpad(), image);
 			for (uint64_t idx = un.b; idx < un.e; ++idx) {
-				f.make(idx, c.v2, p); if (idx % 3 == 0) set_config_block(p, 2 + (int)(idx % 4));   // extreme configuration blocks more often
+				f.make(idx, c.v2, p); if (idx % 3 == 0) { static const int ext[4] = { 2, 7, 8, 9 }; set_config_block(p, ext[idx % 4]); }   // extreme configuration blocks more often
 				unsigned fprc = (unsigned)(idx % 4);
-				vf::set_current(case_json(c, f.name.c_str(), idx, image, fprc, p).dump());
+				vf::set_current(case_json(c, f.name.c_str(), idx, image, fprc, p, un.b).dump());
 				std::string d = r.run(p, fprc, R);
 				if (idx == un.b && u < 40) R.sample(case_json(c, f.name.c_str(), idx, image, fprc, p).set("program", "..."), 2);
-				if (!d.empty()) { vf::Violation v; v.key = "c06:codebuf:" + c.name(); v.what = c.name() + " family " + f.name + " #" + std::to_string(idx) + ": " + d; v.replay = case_json(c, f.name.c_str(), idx, image, fprc, p); R.viol.push_back(v); break; }
+				if (!d.empty()) { vf::Violation v; v.key = "c06:codebuf:" + c.name(); v.what = c.name() + " family " + f.name + " #" + std::to_string(idx) + ": " + d; v.replay = case_json(c, f.name.c_str(), idx, image, fprc, p, un.b); R.viol.push_back(v); break; }
 			}
 			if (env::S().ef_overruns) { vf::Violation v; v.key = "c06:overrun"; v.what = "a library block was written past its end (slack canary damaged)"; v.replay = vf::Json::obj().set("kind", "overrun"); R.viol.push_back(v); }
 		}
